@@ -52,8 +52,14 @@ type RPC struct {
 	HSubs   []Prog      // additional handler goroutines on the same stream
 	// NoFinalClose: the client main actor does not Close the stream after its script.
 	NoFinalClose bool
-	ErrMsg       string // reterr text ("" = default)
-	ErrCode      uint64
+	// CancelWhenDone: the client cancels the call's context once its script is over (the usual
+	// `defer cancel()` of applications).
+	CancelWhenDone bool
+	// CancelImmediately: like CancelWhenDone but without yielding to the director first, exactly as
+	// `defer cancel()` runs right after Invoke / Close returned.
+	CancelImmediately bool
+	ErrMsg            string // reterr text ("" = default)
+	ErrCode           uint64
 }
 
 const (
@@ -574,6 +580,12 @@ func (w *World) StartClient(k int) *Actor {
 			}
 			w.endOp(r, err)
 			a.logf("invoke -> %v", err)
+			if spec.CancelImmediately {
+				cancel()
+			}
+			if spec.CancelWhenDone && a.await("postcancel") {
+				cancel()
+			}
 			return
 		}
 		if !a.await("newstream") {
@@ -598,6 +610,12 @@ func (w *World) StartClient(k int) *Actor {
 			err := st.Close()
 			w.endOp(r, err)
 			a.logf("finalclose -> %v", err)
+			if spec.CancelImmediately {
+				cancel()
+			}
+		}
+		if spec.CancelWhenDone && a.await("postcancel") {
+			cancel()
 		}
 	}()
 	for j, sp := range spec.CSubs {
